@@ -635,7 +635,7 @@ func init() {
 			"unit payloads are a serial number; tokenisation of payloads is C06/C07's subject",
 			"the reference matcher (ref/greedy.go, 60 lines) is the declarative meaning of min/max/group as documented in doc/*_in_depth.md",
 		},
-		BudgetQuick: 100, BudgetThorough: 1700,
+		BudgetQuick: 300, BudgetThorough: 1700,
 		Run: c05Run(occFull, occRed),
 		Replay: func(raw json.RawMessage) (string, string) {
 			var cs c05Case
